@@ -22,8 +22,12 @@ func edgeFactOf(from *ssa.BasicBlock, si int) *edgeFact {
 	if !ok {
 		return nil
 	}
-	taken := si == 0 // condition true
-	inner, neg := unwrapNot(iff.Cond)
+	return condFactOf(iff.Cond, si == 0)
+}
+
+// condFactOf is the fact established by the boolean cond having the value taken
+func condFactOf(cond ssa.Value, taken bool) *edgeFact {
+	inner, neg := unwrapNot(cond)
 	if neg {
 		taken = !taken
 	}
